@@ -5,3 +5,8 @@ use crate::verif_support::*;
 
 // store_lane_data / frame bookkeeping of ItsReadoutFrameValidator exceed CBMC's memory here (nested Vec<LaneDataFrame>
 // with Vec<u8> payloads); they are verified modularly in the Verus unit v_frame.
+
+/// harness access for the parent module's handler harnesses
+pub(crate) fn frame_start_of<C: CustomChecksOpt>(v: &ItsReadoutFrameValidator<C>) -> Option<u64> {
+    v.alpide_readout_frame.as_ref().map(|f| f.start_mem_pos())
+}
